@@ -202,8 +202,35 @@ def _consume(r):
                     poke(y, depth + 1)
 
         poke(r)
+        for net in (r if isinstance(r, (tuple, list)) else [r]):
+            _edit_result(net)
     except Exception:  # noqa: BLE001
         pass
+
+
+def _edit_result(net):
+    """A network returned by the call is edited in place afterwards (as its new owner may): if it shares member /
+    membership sets with the input network, the input changes."""
+    cls = type(net).__name__
+    if cls not in ("Hypergraph", "DiHypergraph") or getattr(net, "frozen", False) is True:
+        return
+    for e in list(net.edges)[:4]:
+        try:
+            if cls == "Hypergraph":
+                net.add_node_to_edge(e, "MUT")
+            else:
+                net.add_node_to_edge(e, "MUT", "in")
+                net.add_node_to_edge(e, "MUT2", "out")
+        except Exception:  # noqa: BLE001
+            pass
+    for n in list(net.nodes)[:3]:
+        try:
+            if cls == "Hypergraph":
+                for e in list(net.nodes.memberships(n))[:2]:
+                    net.remove_node_from_edge(e, n, remove_empty=False)
+            net.add_node_to_edge("MUTEDGE", n) if cls == "Hypergraph" else net.add_node_to_edge("MUTEDGE", n, "in")
+        except Exception:  # noqa: BLE001
+            pass
 
 
 def _calls_for(kind, name, H, tmp):
